@@ -372,6 +372,8 @@ struct Rules {
     callx: Vec<(String, String)>,
     rev_range: bool,
     vec_for: bool,
+    pairs_for: Option<String>,          // R20: `for (a, b) in PLACE` -> while loop over `F(PLACE)` (F given by the overlay, returns a Vec/slice of pairs)
+    filter_for: Option<String>,         // R21: `for x in RECV.filter(|p| COND)` -> while loop over RECV with the closure bound in front of it (the type of p is given)
     hoist_fn: bool,
     exprs: Vec<(String, String)>,       // normalised token string of an expression -> replacement text (R17)
     field_calls: Vec<String>,           // field names whose read access `X.f` becomes the accessor call `X.f()` (R19: the struct is opaque in the unit)
@@ -596,6 +598,47 @@ impl<'a, 'ast> Visit<'ast> for FnScan<'a> {
                                 self.seq += 1;
                                 self.edits.push(Edit { pos: body_open + 1, end: body_open + 1, text: first, rule: "R14:enumerate-for-loop".into(), kept: vec![], oline: 0, seq: 0 });
                                 done = true;
+                            }
+                        }
+                    }
+                    // R20: for (a, b) in PLACE { body } -> let a_seq = F(PLACE); let mut a_cur: usize = 0; while a_cur < a_seq.len() { let a = &a_seq[a_cur].0; let b = &a_seq[a_cur].1; a_cur += 1; body }
+                    (syn::Pat::Tuple(pt), e @ syn::Expr::Path(_)) if self.rules.pairs_for.is_some() && pt.elems.len() == 2 => {
+                        if let (syn::Pat::Ident(pa), syn::Pat::Ident(pb)) = (&pt.elems[0], &pt.elems[1]) {
+                            let f = self.rules.pairs_for.clone().unwrap();
+                            let (rs, re) = brange(e);
+                            let recv = self.src[rs..re].to_string();
+                            let a = pa.ident.to_string();
+                            let b = pb.ident.to_string();
+                            let head = format!("let {a}_seq = {f}({recv}); let mut {a}_cur: usize = 0; while {a}_cur < {a}_seq.len() ", a = a, f = f, recv = recv);
+                            let first = format!(" let {a} = &{a}_seq[{a}_cur].0; let {b} = &{a}_seq[{a}_cur].1; {a}_cur += 1; ", a = a, b = b);
+                            self.push_edit(start, body_open, head, "R20:pairs-for-loop", vec![recv, a]);
+                            self.seq += 1;
+                            self.edits.push(Edit { pos: body_open + 1, end: body_open + 1, text: first, rule: "R20:pairs-for-loop".into(), kept: vec![], oline: 0, seq: 0 });
+                            done = true;
+                        }
+                    }
+                    // R21: for x in RECV.filter(|p| COND) { body } -> let x_seq = RECV; let x_flt = |p: T| COND; let mut x_cur: usize = 0;
+                    //      while x_cur < x_seq.len() { let x = x_seq[x_cur]; x_cur += 1; if !x_flt(&x) { continue; } body }
+                    // (RECV and the closure stay where they are and are rewritten / annotated like any other code; T is given by the overlay)
+                    (syn::Pat::Ident(px), syn::Expr::MethodCall(mc)) if self.rules.filter_for.is_some() && mc.method == "filter" && mc.args.len() == 1 => {
+                        if let syn::Expr::Closure(cl) = &mc.args[0] {
+                            if cl.inputs.len() == 1 {
+                                if let syn::Pat::Ident(pp) = &cl.inputs[0] {
+                                    let ty = self.rules.filter_for.clone().unwrap();
+                                    let x = px.ident.to_string();
+                                    let (rs, re) = brange(&*mc.receiver);
+                                    let (cs, ce) = brange(cl);
+                                    let (_, pe) = brange(pp);
+                                    self.push_edit(start, rs, format!("let {x}_seq = ", x = x), "R21:filter-for-loop", vec![x.clone()]);
+                                    self.visit_expr(&mc.receiver);
+                                    self.push_edit(re, cs, format!("; let {x}_flt = ", x = x), "R21:filter-for-loop", vec![]);
+                                    self.push_edit(pe, pe, format!(": {}", ty), "R21:filter-for-loop", vec![]);
+                                    self.visit_expr(&mc.args[0]);
+                                    self.push_edit(ce, body_open, format!("; let mut {x}_cur: usize = 0; while {x}_cur < {x}_seq.len() ", x = x), "R21:filter-for-loop", vec![]);
+                                    self.seq += 1;
+                                    self.edits.push(Edit { pos: body_open + 1, end: body_open + 1, text: format!(" let {x} = {x}_seq[{x}_cur]; {x}_cur += 1; if !{x}_flt(&{x}) {{ continue; }} ", x = x), rule: "R21:filter-for-loop".into(), kept: vec![], oline: 0, seq: 0 });
+                                    done = true;
+                                }
                             }
                         }
                     }
@@ -1118,6 +1161,8 @@ fn main() {
                     "position" => rules.position = rest != "off",
                     "range-for" | "rev-range" => rules.rev_range = rest != "off",
                     "vec-for" => rules.vec_for = rest != "off",
+                    "pairs-for" => rules.pairs_for = if rest.is_empty() || rest == "off" { None } else { Some(rest.to_string()) },
+                    "filter-for" => rules.filter_for = if rest.is_empty() || rest == "off" { None } else { Some(rest.to_string()) },
                     "drop-cfg-stmt" => rules.drop_cfg = rest.split_whitespace().map(|s| s.to_string()).collect(),
                     "keep-cfg-stmt" => rules.keep_cfg = rest.split_whitespace().map(|s| s.to_string()).collect(),
                     "field-call" => rules.field_calls = rest.split_whitespace().map(|s| s.to_string()).collect(),
